@@ -146,11 +146,16 @@ def half_stream(rng, pid, kinds=("iter", "iterref", "vec", "slice", "array")):
         for L in range(1, 7):
             for n in (2, 3, 4):
                 for ks in itertools.product(["0", "1", "all"], repeat=3):
-                    c = make_source(rng, "%s-half%d" % (pid, i), kind, L, hint=rng.choice(["exact", "inexact"]))
-                    c.threads = [["bufnew %d" % n] + ["bufnext %s" % k for k in ks] + ["bufnext all"]]
-                    c.owner = rng.choice(["drop", "intoseq all"])
-                    cases.append(c)
-                    i += 1
+                    # the chunk after the partly consumed ones is drained through `next`, through `Iterator::fold`
+                    # (what `for_each` uses; an override in the crate is what runs) or through `count`
+                    for last in ("all", rng.choice(["fold", "fold", "count"])):
+                        c = make_source(rng, "%s-half%d" % (pid, i), kind, L, hint=rng.choice(["exact", "inexact"]))
+                        # (a full drain in the middle goes through `fold`/`count` half of the time in the second variant)
+                        ks2 = [(rng.choice(["fold", "count", "all"]) if (k == "all" and last != "all") else k) for k in ks]
+                        c.threads = [["bufnew %d" % n] + ["bufnext %s" % k for k in ks2] + ["bufnext %s" % last]]
+                        c.owner = rng.choice(["drop", "intoseq all"])
+                        cases.append(c)
+                        i += 1
     return cases
 
 
@@ -272,6 +277,47 @@ def liar_stream(rng, pid):
                             c.owner = owner
                             if len(pr) > 1:
                                 c.sched = rand_sched(rng, len(pr), 12)
+                            cases.append(c)
+                            i += 1
+    return cases
+
+
+def big_chunk_stream(rng, pid, tier):
+    """IMPL-ONLY (the model's lists make 10^5-element chunks quadratic): loops with chunk sizes beyond 2^16 over a wrapped
+    iterator longer than that -- the monitors check the visits (each element once, with its source index)"""
+    cases = []
+    progs = [[["enumforeach 66000"]], [["enumforeach 70001"], ["next", "next"]]]
+    if tier != "quick":
+        progs += [[["foreach 65537"], ["enumforeach 66000"]], [["fold 70000"], ["chunk 3 all"]], [["bufnew 66000", "bufnext all", "bufnext all"]]]
+    for i, pr in enumerate(progs):
+        L = 70000 + 7 * i
+        c = Case("%s-big%d" % (pid, i), "iter", script=["S%d" % (1000 + j) for j in range(L)], hint=rng.choice(["exact", "inexact"]))
+        c.threads = [list(t) for t in pr]
+        c.owner = "drop"
+        if len(pr) > 1:
+            c.sched = rand_sched(rng, len(pr), 12)
+        c.tags = {"implonly", "nomodel"}
+        cases.append(c)
+    return cases
+
+
+def closure_panic_stream(rng, pid, kinds=("vec", "array", "iter")):
+    """the caller's closure panics inside `for_each` / `enumerate_for_each` at every position of every chunk of a consuming
+    source (the element in the closure's hands is the caller's; the rest of the chunk is the chunk iterator's to drop)"""
+    cases = []
+    i = 0
+    for kind in kinds:
+        for L in (1, 2, 3, 5, 7):
+            for n in (1, 2, 3, 4):
+                for j in range(0, L):
+                    for op in ("foreach", "enumforeach"):
+                        for second in (None, "next", "chunk 2 all"):
+                            c = make_source(rng, "%s-cp%d" % (pid, i), kind, L, hint=rng.choice(["exact", "inexact"]))
+                            c.threads = [["%s %d panic=%d" % (op, n, j)]]
+                            if second:
+                                c.threads.append([second, "next"])
+                                c.sched = rand_sched(rng, 2, 10)
+                            c.owner = rng.choice(["drop", "intoseq all", "intoseq 1"])
                             cases.append(c)
                             i += 1
     return cases
@@ -457,7 +503,7 @@ def stream_for0(pid, tier, seed):
                                 c.threads = [["bufnew 2"] + ["bufnext %s" % rng.choice(["all", "1", "0"])] * k]
                             c.owner = owner
                             cases.append(c)
-        cases += droppanic_stream(rng, tier, pid) + zst_stream(rng, pid)
+        cases += droppanic_stream(rng, tier, pid) + zst_stream(rng, pid) + closure_panic_stream(rng, pid)
         return cases
     if pid == "C09":
         cases = defects + pulls_stream(rng, tier, pid, n_random=1000 if not big else 40000, prof=dict(skip=True))
@@ -499,6 +545,7 @@ def stream_for0(pid, tier, seed):
             b.script = b.script + ["N", "S2001", "S2002", "N", "S2003"]
             b.hint = "inexact"
         cases += exhaustive("C12-nf", nf, 2, 10 if not big else 13)
+        cases += big_chunk_stream(rng, pid, tier)
         return cases
     if pid == "C13":
         cases = []
@@ -561,6 +608,20 @@ def boundary_stream(rng, tier):
             for p in progs:
                 for o in owners:
                     c = Case("C16-rg%d" % i, "range", start=a, stop=b, threads=[p], owner=o)
+                    cases.append(c)
+                    i += 1
+    # one astronomic one-shot chunk to the tail of an extreme range, then a loop over the last few values: the enumerated
+    # indices run up to the largest representable ones
+    for (a, b) in ((0, MAXW), (7, MAXW), (0, MAXW - 1), (2, (1 << 63) + 3)):
+        span = b - a
+        for n in (2, 3, 4):
+            for r in (n, 2 * n, 2 * n + 1):
+                reads = range(span - r, span, n)
+                if any(x + n > MAXW for x in reads):
+                    continue      # a delivering pull would take the counter past 2^64: the wrap of finding H1
+                for loop in ("enumforeach %d" % n, "foreach %d" % n, "fold %d" % n, "idsvalues"):
+                    c = Case("C16-tail%d" % i, "range", start=a, stop=b, threads=[["chunk %d 0" % (span - r), loop]], owner="drop")
+                    c.tags = {"implonly", "nomodel"}     # the model would list the 2^64 positions of the unconsumed chunk
                     cases.append(c)
                     i += 1
     # chunk sizes on every kind
